@@ -103,35 +103,5 @@ def run(rep, tier, rng):
 
 
 def path_route(rep, files):
-    """Files on disk opened by path: ShapeWriter::from_path / read_shapes /
-    ShapeReader::from_path, through the harness's `path` mode; compared with
-    the in-memory results of the same file."""
-    rel = os.path.join(sfv.TARGET, "debug", "runner")
-    tmp = os.path.join(sfv.CACHE, "tmp", "c01")
-    shutil.rmtree(tmp, ignore_errors=True)
-    os.makedirs(tmp, exist_ok=True)
-    n = 0
-    for k, f in enumerate(files):
-        if "special" in f["written"]:
-            continue
-        calls = [("w", s) for s in f["specs"]]
-        line = " ".join(str(x) for x in C.whist_case(True, 0, calls)[1:])
-        p = subprocess.run([rel, "path", os.path.join(tmp, "f%d.shp" % k)], input=line + "\n", stdout=subprocess.PIPE,
-                           text=True, timeout=120)
-        out = [l for l in p.stdout.splitlines() if not l.startswith("WARNING")]
-        if len(out) != 3:
-            rep.violation({"kind": "oracle", "what": "path route failed: %r" % (p.stdout[-500:],), "file": f["specs"]})
-            return
-        got = [[int(t) for t in l.split()] for l in out]
-        mem = f["reads"][("generic", "seq", True)]["ops"][0]["items"]
-        want = []
-        for it in mem:
-            want += [0] + list(it[1])
-        for name, g in zip(("read_shapes (with .shx)", "read_shapes_as::<T>", "ShapeReader::from_path without .shx"), got):
-            if g != [len(mem)] + want:
-                rep.violation({"kind": "oracle", "what": "path route %s differs from the in-memory route" % name,
-                               "file": f["specs"], "code": f["code"]})
-                return
-        n += 1
-    shutil.rmtree(tmp, ignore_errors=True)
-    rep.cov["path_route_files"] = n
+    """Files on disk opened by path (see pipeline.path_situations)."""
+    P.path_situations(rep, files, "c01")
